@@ -376,6 +376,65 @@ fn custom_key_part(ctx: &Ctx, res: &mut PartResult, depth: usize) {
     }
 }
 
+/// Many keys of one kind (the shard's hash table has to grow several times: its capacity thresholds are 3, 7, 14, 28,
+/// 56 ...): after every registration every key registered so far is still found, by `get` and by `get_or_create`, with
+/// its own storage, and is listed once; afterwards every key is deleted exactly once.
+fn many_keys_part(res: &mut PartResult) {
+    res.engine = "E3 growth of one shard's table: n keys of one kind, lookups of all of them after every insertion".into();
+    let mut states = vseq::States::new();
+    for kind in [Kind::C, Kind::G, Kind::H] {
+        let made = Arc::new(AtomicUsize::new(0));
+        let reg: Registry<Key, Counting> = Registry::new(Counting(made.clone()));
+        let keys: Vec<Key> = (0..120).map(|i| if i % 2 == 0 { Key::from_name(format!("many{}", i)) } else { Key::from_parts(format!("many{}", i), vec![Label::new("i", i.to_string())]) }).collect();
+        let goc = |k: &Key| match kind {
+            Kind::C => reg.get_or_create_counter(k, |s| s.0),
+            Kind::G => reg.get_or_create_gauge(k, |s| s.0),
+            Kind::H => reg.get_or_create_histogram(k, |s| s.0),
+        };
+        let get = |k: &Key| match kind {
+            Kind::C => reg.get_counter(k).map(|s| s.0),
+            Kind::G => reg.get_gauge(k).map(|s| s.0),
+            Kind::H => reg.get_histogram(k).map(|s| s.0),
+        };
+        let mut ids: Vec<usize> = Vec::new();
+        'grow: for n in 0..keys.len() {
+            res.executions += 1;
+            ids.push(goc(&keys[n]));
+            for j in 0..=n {
+                res.transitions += 2;
+                let (g, c) = (get(&keys[j]), goc(&keys[j]));
+                if g != Some(ids[j]) || c != ids[j] {
+                    res.violation("get-wrong-storage", format!("{:?}: after registering {} keys, key #{} ({}) is found as {:?} by get and as id{} by get_or_create; its storage is id{}", kind, n + 1, j, canon(&keys[j]), g, c, ids[j]), json!({"many": n}));
+                    break 'grow;
+                }
+            }
+            if made.load(Ordering::SeqCst) != n + 1 {
+                res.violation("storage-constructed-more-than-once", format!("{:?}: {} storages constructed for {} keys", kind, made.load(Ordering::SeqCst), n + 1), json!({"many": n}));
+                break;
+            }
+            let l = listing(&reg, kind, n % 2 == 0);
+            if l.len() != n + 1 {
+                res.violation("listing-differs-from-live-keys", format!("{:?}: {} keys registered, the listing has {} rows", kind, n + 1, l.len()), json!({"many": n}));
+                break;
+            }
+        }
+        states.add(&(kind, ids.len()));
+        for k in &keys {
+            let (a, b) = match kind {
+                Kind::C => (reg.delete_counter(k), reg.delete_counter(k)),
+                Kind::G => (reg.delete_gauge(k), reg.delete_gauge(k)),
+                Kind::H => (reg.delete_histogram(k), reg.delete_histogram(k)),
+            };
+            if !(a && !b) && res.violations.is_empty() {
+                res.violation("delete-reports-untruthfully", format!("{:?}: deleting {} twice reported ({}, {})", kind, canon(k), a, b), json!({"many": 0}));
+            }
+        }
+    }
+    res.states = states.len();
+    res.distinct_outcomes = states.len();
+    res.sample(json!({"keys": 120, "kinds": 3, "check": "after every registration all earlier keys are still found with their own storage"}));
+}
+
 fn e3(ctx: &Ctx, res: &mut PartResult, depth: usize, first: Option<usize>, samename: bool) {
     res.engine = "E3 bounded exhaustive op sequences on the real Registry vs a map reference".into();
     let alpha = if samename { alphabet_samename() } else { alphabet() };
@@ -617,6 +676,8 @@ fn parts(ctx: &Ctx) -> Vec<PartSpec> {
         v.push(PartSpec::new("e3-samename-d4-16shards", json!({"depth": 4, "samename": true})));
         v.push(PartSpec::new("e3-samename-d4-1shard", json!({"depth": 4, "samename": true})).cpus("0"));
         v.push(PartSpec::new("e3-custom-key-colliding-hashes-d4", json!({"custom": 4})));
+        v.push(PartSpec::new("e3-many-keys-1shard", json!({"many": true})).cpus("0"));
+        v.push(PartSpec::new("e3-many-keys-16shards", json!({"many": true})));
         for s in ["create-create-delete", "create-retain-clear", "two-kinds-two-keys", "shared-static-key", "histogram-gauge-race", "two-removers", "remover-vs-sweeps"] {
             v.push(PartSpec::new(&format!("e1-{}-pb2", s), json!({"e1": s, "pb": 2})).cpus("0"));
         }
@@ -643,6 +704,10 @@ fn parts(ctx: &Ctx) -> Vec<PartSpec> {
 fn run(ctx: &Ctx, spec: &PartSpec) -> PartResult {
     let mut res = PartResult::new(&spec.name, "");
     vseq::quiet_panics();
+    if spec.arg["many"].as_bool() == Some(true) {
+        many_keys_part(&mut res);
+        return res;
+    }
     if let Some(d) = spec.arg["custom"].as_u64() {
         custom_key_part(ctx, &mut res, d as usize);
         return res;
@@ -669,7 +734,7 @@ fn main() {
     driver::main(CheckDef {
         prop: "C06",
         level: "model_checking",
-        rule: "E3: every sequence up to the stated depth over 34 operations (get_or_create — also with an op closure that panics while the shard write lock is held, caught — / get / delete / retain / clear / visit / get_*_handles over kinds x keys {k1, k1' = equal key built statically with permuted labels, clones of that static key taken before / after its hash was first computed, k2, k3 = same shard}) on a fresh real Registry with a construction-counting Storage, compared after every step with a map reference (results, storage identity, construction count, both listings); shard counts 1, 2, 16 via CPU affinity; the same for a caller's own key type in which two different keys have the same 64-bit hash; E1: all SC interleavings (pb-bounded) of 3 threads x 2 ops, brute-force linearizability against the same reference; distinct = distinct reference states / outcomes",
+        rule: "E3: every sequence up to the stated depth over 34 operations (get_or_create — also with an op closure that panics while the shard write lock is held, caught — / get / delete / retain / clear / visit / get_*_handles over kinds x keys {k1, k1' = equal key built statically with permuted labels, clones of that static key taken before / after its hash was first computed, k2, k3 = same shard}) on a fresh real Registry with a construction-counting Storage, compared after every step with a map reference (results, storage identity, construction count, both listings); shard counts 1, 2, 16 via CPU affinity; the same for a caller's own key type in which two different keys have the same 64-bit hash; 120 keys of one kind in one shard (the table grows several times), all earlier keys looked up after every registration; E1: all SC interleavings (pb-bounded) of 3 threads x 2 ops, brute-force linearizability against the same reference; distinct = distinct reference states / outcomes",
         assumptions: &["E1: sequential consistency; lock release is not a scheduling point of its own (the next operation of the releasing thread is)", "keys with pairwise distinct label names"],
         parts,
         run,
